@@ -672,10 +672,26 @@ def run_item(ctx, item):
         rng = ctx.rng("gen", item[1])
         cs = combos()
         rounds = 18
+        built = []
         for r in range(rounds):
             for j, (k, v) in enumerate(cs):
                 case = G.make_line(rng, k, v)
-                run_line(ctx, case, sample=(item[1] < 3 and r == 0 and j == 5 * item[1] + 7))
+                text = run_line(ctx, case, sample=(item[1] < 3 and r == 0 and j == 5 * item[1] + 7))
+                if text is not None:
+                    built.append((case, text))
+        # a line object keeps its text while other lines (of other kinds, attributes and versions) are built and written:
+        # the lines of a file are all alive at once when it is saved
+        for case, text in built:
+            ctx.check()
+            try:
+                again = case.obj.matchline
+            except Exception as e:  # noqa
+                again = f"<{type(e).__name__}: {e}>"
+            if again != text:
+                ctx.violation(f"line-text-changes-after-other-lines-were-built:{case.kind}",
+                              f"{case.kind} {vstr(case.version)}: first written as {text!r}, later as {again!r}",
+                              {"kind": case.kind, "version": vstr(case.version), "text": text, "later": again})
+                break
     elif kind == "keys":
         run_keys(ctx)
     elif kind == "timesigs":
